@@ -257,7 +257,7 @@ CORPUS = [
 def generate(ctx: Ctx) -> List[Case]:
     rng = ctx.rng
     cases = [run_recipe(ctx, rec, f"corpus{i}") for i, rec in enumerate(CORPUS)]
-    n_cases = 3000 if ctx.thorough else 220
+    n_cases = 6000 if ctx.thorough else 220
     for i in range(n_cases):
         cases.append(run_recipe(ctx, rand_recipe(rng, rng.randrange(3, 21 if ctx.thorough else 11)), f"g{i}"))
     return cases
